@@ -561,8 +561,12 @@ class NodeDeref:
         if value.isObject():
             member = idx.asString().value
             exists = value.hasItem(member)
+            seen = [value]
             while not exists and value.hasItem("_proto_"):
                 value = value.getItem("_proto_")
+                if any(value is visited for visited in seen):
+                    break  # the _proto_ chain runs in a circle
+                seen.append(value)
                 exists = value.hasItem(member)
             if not exists:
                 if self.default_value:
@@ -663,8 +667,12 @@ class NodeDerefInvoke:
         if obj_.isObject():
             obj = obj_
             exists = obj.hasItem(self.member)
+            seen = [obj]
             while not exists and obj.hasItem("_proto_"):
                 obj = obj.getItem("_proto_")
+                if any(obj is visited for visited in seen):
+                    break  # the _proto_ chain runs in a circle
+                seen.append(obj)
                 exists = obj.hasItem(self.member)
             if not exists:
                 raise CklRuntimeError(
